@@ -139,6 +139,9 @@ def lattice(kind, cfg):
       return None
     step = F(2) ** (cfg["integer"] - ub)
     lo = (-(2 ** ub) + int(cfg["symmetric"])) if kn else 0
+    if kind == "qlinear":
+      # the updated quantizer divides by alpha * 2^(integer - ub) first: alpha is part of the step
+      return step * gain, lo, 2 ** ub - 1, F(1)
     return step, lo, 2 ** ub - 1, gain
   if kind == "qrelu":
     nsb = cfg["bits"] - (0 if cfg["slope_log"] is None else 1)
